@@ -82,6 +82,7 @@ func hasBackEdgeTo(b, h *ssa.BasicBlock) bool {
 
 func runC10(c *Ctx) {
 	p, fx := c.P, c.Fx
+	nilmapFacts = fx
 	pkgClusterInfo := "pkg/scheduler/cache/cluster_info"
 	// ---- O1: hierarchy walks
 	sanitised := map[string]bool{"pkg/scheduler/api/queue_info.QueueInfo": true, pkgResShare + ".QueueAttributes": true}
